@@ -135,13 +135,29 @@ impl Scenario for C09 {
             // drain): one of them may have been "the next call" that received ServerClosedChannel
             let has_consumers = res.hist.ops.iter().any(|o| o.ch_id == *ch && matches!(o.op, Op::Consume { .. }));
             let mut swallowed = false;
+            // an ack that failed inside a drain is recorded by the harness (first error of that drain): it takes
+            // its place in the channel's call sequence; a consumer drop's error is truly invisible
+            let mut drain_errs: Vec<OpRec> = Vec::new();
             for o in res.hist.ops.iter().filter(|o| o.ch_id == *ch) {
                 match &o.op {
                     Op::DropConsumer { .. } => swallowed |= o.ret > *_sent_stamp,
-                    Op::Drain { acks, .. } if !acks.is_empty() => swallowed |= o.ret > *_sent_stamp,
+                    Op::Drain { acks, slot, .. } if !acks.is_empty() => {
+                        let key = format!("ack error during drain t{} slot{}: ", o.thread, slot);
+                        if let Some(e) = res.hist.notes.iter().find_map(|n| n.strip_prefix(&key)) {
+                            let mut x = (*o).clone();
+                            x.result = OpResult::Err(e.to_string());
+                            drain_errs.push(x);
+                            rep.count("c09.ack_errors_in_drain_sequenced", 1);
+                        }
+                    }
                     _ => {}
                 }
             }
+            let mut ops = ops;
+            for x in &drain_errs {
+                ops.push(x);
+            }
+            ops.sort_by_key(|o| (o.invoke, o.idx));
             for o in &ops {
                 let is_err = matches!(o.result, OpResult::Err(_));
                 match first_err {
